@@ -23,7 +23,9 @@ RULE = (
     "baseline-weighted share of scores <= it exceeds q, c = max(c_pop, quantile(scores, q)) if robust; asserts the "
     "invariant on itself and then returned lower/upper == round(max((b -/+ c) w + w, counted)). Non-trivial: at least "
     "one alternative rule (>= instead of >, unweighted, without the 1+1/n factor, robust flipped) gives a different "
-    "correction. (b) coverage, Monte Carlo: exchangeable elections with equal baselines, iid covariate, residuals from "
+    "correction. In half of the cases every reporting unit also has an identical not-yet-reporting twin: the unadjusted "
+    "bounds behind each calibration unit's score must equal the bounds its twin is given (the calibration units are "
+    "scored against their own interval, incl. fixed-effect levels the training rows did not see). (b) coverage, Monte Carlo: exchangeable elections with equal baselines, iid covariate, residuals from "
     "{normal, t2, heteroskedastic, discrete with ties}, feature sets {none, x}, n in {min, min+1, min+3, 2 min, 60}, "
     "alpha in {0.7,0.8,0.9}; one designated nonreporting unit per election; the number of trials whose true count lies "
     "in [lower, upper] must not be significantly below alpha: exact binomial P(Bin(M,alpha) <= K) >= 1e-6 per cell. "
@@ -65,6 +67,7 @@ def diff_case(draw):
         "noise": draw(st.sampled_from([0.001, 0.05, 0.3])),
         "seed": draw(st.integers(0, 10000)),
         "model_seed": draw(st.integers(0, 50)),
+        "twins": draw(st.booleans()),
     }
 
 
@@ -108,6 +111,14 @@ def diff_frames(c):
     non = df.iloc[n:].copy().reset_index(drop=True)
     non["reporting"] = 0
     non["results_turnout"] = np.round(last[n:] * rng.choice([0.0, 0.3, 3.0], size=k))
+    if c.get("twins"):
+        # every reporting unit also has an identical not-yet-reporting twin (same covariate, fixed-effect level and
+        # baseline): the interval reported for the twin of a calibration unit IS that unit's interval
+        tw = df.iloc[: min(n, 80)].copy().reset_index(drop=True)
+        tw["geographic_unit_fips"] = "twin_" + tw["geographic_unit_fips"]
+        tw["reporting"] = 0
+        tw["results_turnout"] = 0.0
+        non = pd.concat([non, tw], axis=0).reset_index(drop=True)
     return rep, non
 
 
@@ -161,6 +172,31 @@ def check_diff(c, ctx):
         # "held-out calibration units": at least one reporting unit is used for training only, none is counted twice
         ctx.violation("calibration_not_held_out", f"{n_cal} calibration units out of {len(rep)} reporting units (alpha={alpha})", c, sig="not_held_out")
         return
+    if c.get("twins"):
+        # the calibration units are scored against THEIR OWN interval: the unadjusted bounds behind a calibration
+        # unit's conformity score are the bounds its identical not-yet-reporting twin is given
+        pos = {u: i for i, u in enumerate(non["geographic_unit_fips"])}
+        bl, bu = np.asarray(b.lower, float), np.asarray(b.upper, float)
+        r_cal = cal["residuals_turnout"].to_numpy(float)
+        own_l = cal["lower_bounds"].to_numpy(float) + r_cal
+        own_u = r_cal - cal["upper_bounds"].to_numpy(float)
+        n_tw = 0
+        for i, u in enumerate(cal["geographic_unit_fips"]):
+            j = pos.get("twin_" + u)
+            if j is None:
+                continue
+            n_tw += 1
+            for name, own, tw in (("lower", own_l[i], bl[j]), ("upper", own_u[i], bu[j])):
+                if not abs(own - tw) <= 1e-9 * (1 + abs(tw)):
+                    ctx.violation(
+                        "calibration_unit_scored_against_another_interval",
+                        f"calibration unit {u}: its conformity score uses the unadjusted {name} bound {own:.9f}, but an identical not-yet-reporting unit is given {tw:.9f} (fixed effect={c['fe']}, feature={c['feature']}, {len(rep) - n_cal} training rows)",
+                        c,
+                        sig=f"twin|{name}",
+                    )
+                    return
+        if n_tw and c["fe"]:
+            ctx.label("twins_of_calibration_units_with_fixed_effect")
     q = alpha * (1 + 1 / n_cal)
     scores = np.maximum(cal["lower_bounds"].to_numpy(float), cal["upper_bounds"].to_numpy(float))
     w = cal["last_election_results_turnout"].to_numpy(float)
